@@ -576,6 +576,57 @@ theorem hsfz_write_outcomes_sys (cfg : Cfg) (yields : Wire → Bool) (ops0 : Lis
     rw [← hS'] at this
     exact this
 
+/-- **a control word received while the tester is idle fails the next write.**  At any point of any whole execution
+    (connection established, client idle - between two calls -, open, stream alive) let the read queue hold a bare
+    control word `cw` (any word other than data / ack / alive check, queued by the reader task: `other_words_queued`)
+    behind frames `pre` none of which is the ack of the request (data frames, foreign frames, stale acks).  Then the next
+    write of `data` - whatever the gateway sends while it waits (`ops`: acks, answers, time; a gateway that goes on
+    acknowledging included), whatever happens afterwards (`rest`), for every schedule - ends at the instant it starts
+    with the connection error of that word, and the connection is closed: the word is neither skipped nor lost. -/
+theorem hsfz_idle_error_word_fails_next_write (cfg : Cfg) (yields : Wire → Bool) (ops0 : List HsfzSys.Op) (data : Bytes)
+    (tmo : Option Nat) (ops rest : List HsfzSys.Op)
+    (s : HsfzSys.Sys) (hs : s = HsfzSys.exec cfg yields {} ops0)
+    (hconn : s.connected = true) (hidle : s.core.client = .idle) (hopen : s.core.closed = false)
+    (hlive : s.core.eof = false) (htmo : tmo ≠ some 0) (hack : 0 < cfg.ackTimeout)
+    (hsafe : HsfzSys.gatewayOnly ops)
+    (pre post : List Item) (cw : Nat) (hq : s.core.queue = pre ++ .word cw :: post)
+    (hpre : Clean (ackMatches cfg data) pre) :
+    ∃ more,
+      (HsfzSys.exec cfg yields (HsfzSys.exec cfg yields {} (ops0 ++ .write data tmo :: ops)) rest).core.done =
+        s.core.done ++ (s.core.now, .errWord cw) :: more ∧
+      (HsfzSys.exec cfg yields (HsfzSys.exec cfg yields {} (ops0 ++ .write data tmo :: ops)) rest).core.closed = true := by
+  have hnone : (pre.map (fun x => (s.core.now, x))).find? (fun e => decides (ackMatches cfg data) e.2) = none := by
+    rw [List.find?_eq_none]
+    intro e he
+    obtain ⟨y, hy, rfl⟩ := List.mem_map.mp he
+    have := hpre y hy
+    simp [decides, this.1, this.2]
+  have h := (hsfz_write_outcomes_sys cfg yields ops0 data tmo ops rest s hs hconn hidle hopen hlive htmo hack hsafe
+    (ackExpiry (s.core.now + cfg.ackTimeout) (tmo.map (s.core.now + ·))).1
+    (ackExpiry (s.core.now + cfg.ackTimeout) (tmo.map (s.core.now + ·))).2 rfl _ rfl _ rfl).1 s.core.now (.word cw)
+    (by rw [hq, List.map_append, List.append_assoc, List.find?_append, hnone]; simp [decides, Item.isFrame])
+  obtain ⟨more, h1, h2⟩ := h
+  exact ⟨more, by simpa [ackResult] using h1, h2 rfl⟩
+
+/-- not vacuous: an ordinary exchange; then - tester idle - a late data frame and the control word 0x42 (empty body)
+    arrive; the late frame is read; the next request is acked and answered by the gateway as usual, yet it fails at
+    once with that word, the connection is closed and the read behind it is refused -/
+example :
+    let cfg := HsfzSys.cfgOfUri 0xf4 0x10 none
+    let ack := encodeWire (.full cwAck 0xf4 0x10 [0x3e, 0x00])
+    let ops0 : List HsfzSys.Op :=
+      [.connect, .write [0x3e, 0x00] none, .advance 7, .feed (ack ++ encodeWire (.full cwData 0x10 0xf4 [0x7e, 0x00])),
+       .read (some 40), .advance 5,
+       .feed (encodeWire (.full cwData 0x10 0xf4 [0x7f, 0x10, 0x21]) ++ encodeWire (.short 0x42 [])), .advance 200]
+    let s := HsfzSys.exec cfg (asyncioYields true) {} ops0
+    let ops : List HsfzSys.Op := [.advance 7, .feed (ack ++ encodeWire (.full cwData 0x10 0xf4 [0x7e, 0x00]))]
+    s.connected = true ∧ s.core.client = .idle ∧ s.core.closed = false ∧ s.core.eof = false ∧
+    s.core.queue = [.frame cwData 0x10 0xf4 [0x7f, 0x10, 0x21]] ++ .word 0x42 :: [] ∧ HsfzSys.gatewayOnly ops ∧
+    (HsfzSys.exec cfg (asyncioYields true) {} (ops0 ++ .write [0x3e, 0x00] none :: ops ++ [.read (some 40)])).core.done =
+      [(7, .wrote 2), (7, .data [0x7e, 0x00]), (212, .errWord 0x42), (219, .badFd)] := by
+  refine ⟨by decide +kernel, by decide +kernel, by decide +kernel, by decide +kernel, by decide +kernel, ?_, by decide +kernel⟩
+  simp [HsfzSys.gatewayOnly]
+
 /-- **frames with `Len < 2` never desynchronise the stream.**  For every event list and schedule the frames the reader
     task has handled (its own trace), followed by the frames still complete in the receive buffer (connection closed
     meanwhile / stream ended / not yet connected), are exactly the frames of the byte stream, in order - short frames
